@@ -1,9 +1,11 @@
 /- One line per stream handler. -/
 import Comet.Driver.Flat
 import Comet.Driver.Dist
+import Comet.Driver.Atomic
 namespace Comet.Driver
 
 def handlers : List Handler := [
+  AtomicStream.handler,
   FlatStream.handler,
   DistStream.handler
 ]
